@@ -649,7 +649,7 @@ def seq_small(ctx):
     plan = []
     for n in refs:
         N = refs[n]["ref_total"]
-        cuts = sorted({1, 2, N, N + 1, max(1, N // 2), rng.randrange(1, N + 3), rng.randrange(1, N + 3)})[:ctx.n(5, 7)]
+        cuts = sorted(c for c in {1, 2, N, N + 1, max(1, N // 2), rng.randrange(1, N + 3), rng.randrange(1, N + 3)} if c >= 1)[:ctx.n(5, 7)]
         for k in cuts:
             T = rng.choice([1, 2, 1, 0.5])
             d = int(T * 10 ** 6 // k) + 1
